@@ -112,7 +112,7 @@ def bucket(resid):
 # ----------------------------------------------------------------------------- OrbRep group models
 ORBREP_INV = ["GroupOrder", "Closed", "IdentityLaw", "Inverses", "LatinSquare", "Associative", "ElemsO3", "ElemsNumbers",
               "RepIdentity", "RepOrthogonal", "RepHomP", "RepHomD", "RepParity", "RepFaithfulP", "Compression", "SubHom",
-              "Stabiliser", "FullShells"]
+              "Stabiliser", "FullShells", "RepFrame"]
 
 
 def orbrep_cfg(group, variant="code", invariants=ORBREP_INV):
